@@ -121,7 +121,15 @@ def code_rows():
                 rows.append([float(F[pl][j] * rng) for j in range(3)])
             D = ideal_inverse(m)
             et = [float(sum(abs(D[j][pl]) / ideal_norm(8, full, pl > 0)[1] for pl in range(3)) / 2) * 1.0001 for j in range(3)]
-            out.append((f"{m}/{'full' if full else 'limited'}", rows, et))
+            # joint constraints on a decoded in-gamut sample x0 = rgb + Dinv * diag(1/norm) * rho, rgb in [0,1]^3, |rho_pl| <= 1/2:
+            # for every direction w,  w . x0 <= sum_i max(w_i, 0) + 1/2 sum_pl |sum_j w_j Dinv[j][pl]| / norm_pl
+            # (the three components are not perturbed independently: the corner boxes of the widened cube are mostly empty)
+            cons = []
+            for w in itertools.product((-1, 0, 1), repeat=3):
+                if not any(w): continue
+                b = sum(max(wi, 0) for wi in w) + sum(abs(sum(w[j] * D[j][pl] for j in range(3))) / ideal_norm(8, full, pl > 0)[1] for pl in range(3)) / 2
+                cons.append((w, float(b) * 1.0001 + 2e-6))        # 2e-6: the binary32 rounding of the decoder (C01: 7.7e-7 per component)
+            out.append((f"{m}/{'full' if full else 'limited'}", rows, et, cons))
     return out
 
 def eta():
@@ -244,9 +252,12 @@ class Pipeline:
             self.last = str(ex)
             return INF, [INF, INF, INF]
         w = 0.0
-        for label, rows, et in self.rows:
+        for label, rows, et, cons in self.rows:
             # decoded in-gamut samples of THIS matrix/range lie in prod_j [-et_j, 1 + et_j]: boxes outside are not its business
             if any(bx_hi < -et[j] or bx_lo > 1 + et[j] for j, (bx_lo, bx_hi) in enumerate(box)):
+                continue
+            # ... and satisfy the joint constraints: a box on which some w . x exceeds its bound everywhere holds none of them
+            if any(sum((box[j][0] if w[j] > 0 else box[j][1]) * w[j] for j in range(3)) > b for w, b in cons):
                 continue
             for row in rows:
                 acc = I(0.0, 0.0)
@@ -297,8 +308,6 @@ NOT_CLOSING_P = ('BT470BG', 'ST170M', 'ST240M', 'P3DCI', 'Tech3213')
 def not_closing(t, p):
     if t == 'BT470BG':
         return 'gamma 2.8: a worst-case linear-light error of 1e-5 in a near-zero component of a saturated colour (a-priori rounding through the inverse opsin matrix) becomes 0.016 after x^(1/2.8); bound 1.5-1.7 x budget'
-    if t == 'XVYCC':
-        return 'odd extension: a slightly negative linear component may be perturbed to a positive one, where the curve has infinite slope; bound 1.16 x budget'
     if t in BT1886_FAMILY and p in NOT_CLOSING_P:
         return 'bound 1.007-1.043 x budget: worst-case rounding through the inverse opsin and primaries matrices for a saturated colour with one near-black component'
     return None
@@ -322,7 +331,7 @@ def numeric_budget(ck, tier, curves, prims):
         pairs = [('BT1886', 'BT709'), ('SRGB', 'BT2020'), ('HybridLogGamma', 'BT2020'), ('Logarithmic100', 'P3DCI'), ('BT470M', 'BT470M')]
     else:
         pairs = [(t, p) for t in curves if t != 'Linear' for p in prims if p != 'ST428' and not_closing(t, p) is None]
-    jobs = [(t, p, 2500 if tier == 'quick' else 6000) for t, p in pairs]
+    jobs = [(t, p, 2500 if tier == 'quick' else 9000) for t, p in pairs]
     import multiprocessing as mp
     with mp.Pool(min(8, len(jobs))) as pool:
         results = pool.map(_work, jobs, chunksize=1)
